@@ -12,6 +12,7 @@ import InTotoModel.Model.Attest
 import InTotoModel.Model.Wire
 import InTotoModel.Model.KeyId
 import InTotoModel.Driver.RecordProto
+import InTotoModel.Driver.CodecProto
 /-
   Executable model driver: one operation per input line, one canonical answer per line.
   Unknown or malformed operations answer `bad-op` (never a default).
@@ -141,6 +142,7 @@ def step (line : String) : String :=
     match strOfHex h with
     | some s => match KeyId.hexDecode s with | some b => "ok " ++ hexOfBytes b | none => "reject"
     | none => "bad-op"
+  | "doc_dec" :: toks => docDec toks
   | "rule_dec" :: toks =>
     match readJV toks with
     | some (v, []) =>
